@@ -40,8 +40,9 @@ Definition oracle_sqrt (c : ctx) (x : dec) (o : obs) : list Z :=
   if system_err (o_err o) then [] else
   let '(q, e, exact) := sqrt_expect (prec c) (coeff x) (exp x) in
   let adj := e + ndigits q - 1 in
-  if (adj <? emin c) || (adj >? emax c) then [] else       (* outside the normal range: left to C01/C07 *)
   let d := o_dec o in
+  if adj >? emax c then flag (form_eqb (form_of d) Infinite && negb (neg d)) O_SQRT else   (* the rounded root overflows *)
+  if adj <? emin c then [] else       (* below the normal range: a second rounding to Etiny; left to C07 *)
   flag (is_finite d && negb (neg d) && value_eqb (coeff d) (exp d) q e) O_SQRT
   ++ flag (Bool.eqb (Inexact (o_cond o)) (negb exact)) O_SQRT_INEXACT.
 
@@ -56,32 +57,46 @@ Definition icbrt (n : Z) : Z :=
   let r0 := 2 ^ (Z.log2 n / 3 + 1) in
   icbrt_iter (Z.to_nat (Z.log2 n) + 8) n r0.
 
-(* |d - cbrt(x)| <= one unit in the last place of a Precision-digit result, and exactness on perfect cubes *)
+(* |d - cbrt(x)| <= one unit in the last place of a Precision-digit result (10^Etiny below the normal
+   range), an Infinity only when the root exceeds the largest finite number minus one unit, and
+   exactness on perfect cubes whose root lies in the normal range *)
 Definition oracle_cbrt (c : ctx) (x : dec) (o : obs) : list Z :=
   if negb (is_finite x && (0 <? coeff x) && wf_dec x && wf_ctx c && (1 <=? prec c)) then [] else
   if system_err (o_err o) then [] else
   let d := o_dec o in
-  if negb (is_finite d) || (coeff d =? 0) then [O_CBRT] else
   let p := prec c in
-  (* the result at exactly p digits: c1 * 10^e1 *)
-  let pad := p - ndigits (coeff d) in
-  let c1 := coeff d * 10 ^ pad in
-  let e1 := exp d - pad in
-  let adj := e1 + p - 1 in
-  if (adj <? emin c) || (adj >? emax c) || (pad <? 0) then [] else
-  (* compare cubes at a common exponent m <= 3*e1, exp x *)
-  let m := Z.min (3 * e1) (exp x) in
-  let X := coeff x * 10 ^ (exp x - m) in
-  let sc := 10 ^ (3 * e1 - m) in
-  flag (Bool.eqb (neg d) (neg x) && ((c1 - 1) * (c1 - 1) * (c1 - 1) * sc <=? X) && (X <=? (c1 + 1) * (c1 + 1) * (c1 + 1) * sc)) O_CBRT
-  ++ (* perfect cube: x = k^3 * 10^(3j) with k of at most p digits (after stripping zeros) *)
-     (let ex3 := exp x mod 3 in
-      let Xn := coeff x * 10 ^ ex3 in                       (* exponent exp x - ex3 is a multiple of 3 *)
-      let k := icbrt Xn in
-      if (k * k * k =? Xn) then
-        let kz := tz k in
-        let ks := k / 10 ^ kz in
-        if ndigits ks <=? p then
-          flag (value_eqb (coeff d) (exp d) k ((exp x - ex3) / 3) && negb (Inexact (o_cond o))) O_CBRT_EXACT
-        else []
-      else []).
+  match form_of d with
+  | NaN | NaNSignaling => [O_CBRT]
+  | Infinite =>
+      (* legitimate iff cbrt(x) > (10^p - 2) * 10^(emax - p + 1) *)
+      let e1 := emax c - p + 1 in
+      let c1 := 10 ^ p - 2 in
+      let mm := Z.min (3 * e1) (exp x) in
+      flag (Bool.eqb (neg d) (neg x) && (c1 * c1 * c1 * 10 ^ (3 * e1 - mm) <? coeff x * 10 ^ (exp x - mm))) O_CBRT
+  | Finite =>
+      if coeff d <? 0 then [O_CBRT] else
+      let adj := exp d + ndigits (coeff d) - 1 in
+      let u := Z.max (etiny c) (if coeff d =? 0 then exp d else adj - p + 1) in
+      let m := Z.min u (exp d) in
+      let Dm := coeff d * 10 ^ (exp d - m) in
+      let Um := 10 ^ (u - m) in
+      let mm := Z.min (3 * m) (exp x) in
+      let X := coeff x * 10 ^ (exp x - mm) in
+      let sc := 10 ^ (3 * m - mm) in
+      let lo := Dm - Um in
+      let hi := Dm + Um in
+      flag (((coeff d =? 0) || Bool.eqb (neg d) (neg x))
+            && ((lo <=? 0) || (lo * lo * lo * sc <=? X)) && (X <=? hi * hi * hi * sc)) O_CBRT
+      ++ (* perfect cube: x = k^3 * 10^(3j) with k of at most p digits (after stripping zeros), root in the normal range *)
+         (let ex3 := exp x mod 3 in
+          let Xn := coeff x * 10 ^ ex3 in                       (* exponent exp x - ex3 is a multiple of 3 *)
+          let k := icbrt Xn in
+          if (k * k * k =? Xn) then
+            let kz := tz k in
+            let ks := k / 10 ^ kz in
+            let radj := (exp x - ex3) / 3 + ndigits k - 1 in
+            if (ndigits ks <=? p) && (emin c <=? radj) && (radj <=? emax c) then
+              flag (value_eqb (coeff d) (exp d) k ((exp x - ex3) / 3) && negb (Inexact (o_cond o))) O_CBRT_EXACT
+            else []
+          else [])
+  end.
